@@ -1478,6 +1478,9 @@ ASSUMPTIONS = [
 COMPONENTS = {
     "real": ["all of pytrs incl. pytrs.tractwriter", "csv", "io.TextIOWrapper",
              "io.BufferedWriter", "pathlib.Path"],
-    "stubbed": ["raw file object (SimRaw: write/close)", "os.stat",
-                "builtins.open / io.open dispatch for paths under /simfs/"],
+    "stubbed": ["raw file object (SimRaw: write/seek/truncate/close)",
+                "builtins.open / io.open / os.open / os.fdopen dispatch for "
+                "paths under /simfs/ and the fake descriptors",
+                "os.stat / lstat / access / listdir, os.rename / replace / "
+                "remove / unlink / fsync / write / close for those"],
 }
